@@ -78,6 +78,10 @@ def run_case(case, ctx):
             ka = build(a, 0)
             ctx.label("relation-variant-made-from-a-queried-copy")
         la, lb = g("iter", lambda: list(A)), g("iter", lambda: list(B))
+        if max(len(la), len(lb)) > 8:
+            ctx.label("set-of-more-than-8-spans")
+        if max(len(la), len(lb)) > 8 and (ra in (1, 3) and len(la) > 8 or rb in (1, 3) and len(lb) > 8):
+            ctx.label("interval-relation-set-of-more-than-8-spans")
         ctx.need(la == ka and lb == kb, "SpanSet/init/construction-differs",
                  lambda: "relation %s: built %r from %r, definition gives %r" % (REL_NAMES[ra], la, a, ka))
         ctx.need(len(A) == len(ka) and len(B) == len(kb), "SpanSet/len/wrong", "len differs")
@@ -185,8 +189,11 @@ def strategies(tier):
         return st.tuples(grid, grid).map(lambda t: [min(t), max(t)])
     ints = span(st.integers(0, 4))
     floats = span(st.integers(0, 16).map(lambda i: i / 4))
+    # many short spans over a long grid: sets that keep more than a handful of spans under every relation (a size-dependent
+    # fast path in membership was seeded in round 16; nothing in the code limits the number of spans)
+    short = st.tuples(st.integers(0, 40), st.integers(0, 2)).map(lambda t: [t[0], t[0] + t[1]])
     case = st.one_of(*[
-        st.fixed_dictionaries({"a": st.lists(sp, max_size=5), "b": st.lists(sp, max_size=5), "ra": st.integers(0, 3),
+        st.fixed_dictionaries({"a": st.lists(sp, max_size=n), "b": st.lists(sp, max_size=n), "ra": st.integers(0, 3),
                                "rb": st.integers(0, 3), "two_seq": st.booleans(), "via_copy": st.sampled_from([False, False, True]), "force": st.sampled_from([False, False, True]), "probes": st.lists(sp, max_size=3)})
-        for sp in (ints, floats)])
+        for sp, n in ((ints, 5), (floats, 5), (short, 16))])
     return [("drawn-pairs", case, 1000000 if big else 10000)]
